@@ -579,6 +579,10 @@ def conf_subset(which):
             for ar in (1, 2):
                 out.append(mkconf(startsecs=ss, startretries=sr, autorestart=ar,
                                   stopasgroup=(ss ^ sr), killasgroup=1, stopwaitsecs=1 + sr))
+    if which in ('C13', 'C01'):
+        # commands that cannot be run: missing, not executable, no permission for this user, a directory
+        for cmd in (1, 2, 3, 4):
+            out.append(mkconf(startsecs=1, startretries=1, autorestart=1, stopwaitsecs=1, cmd=cmd))
     return out
 
 
